@@ -71,6 +71,19 @@ func checkC01(c *Check) {
 	for f := range sub.funcs {
 		c.SawFunc(f)
 	}
+
+	// R7: a record read back from the spool can be processed. tryDelivery files a failed recipient's error and attempt
+	// count in maps of the persisted record; a record whose map comes back nil (never initialised, or initialised empty
+	// under an `omitempty` tag) makes the first failing recipient after a restart panic: the message is renamed to
+	// *.meta_broken – not delivered, not retried, not reported. This is C02's rule R7, a clause of this property too.
+	c.Rule("R7", "the maps of the spooled record that tryDelivery writes are non-nil in every record that can be read back (C02.R7)", 1)
+	sub2 := newCheck("C02", c.P, c.Tier)
+	c02RecordMaps(sub2)
+	for _, o := range sub2.obs {
+		if o.Rule == "R7" {
+			c.Hold("R7", o.Key, o.posRaw, o.OK, o.Msg)
+		}
+	}
 }
 
 func c01Deliver(c *Check) {
